@@ -110,14 +110,17 @@ theorem tie_HasPresence (f : FileD) (fd : FieldD) (m : Bool) :
     · cases m <;> simp [h1, h3]
     · cases m <;> simp [h1, h3]
 
+/-- what oneof.go reads from a oneof -/
+def oneofEnv (f : FileD) (h : MsgHead) (o : Nat) (m : Bool) : OneofEnv :=
+  { syn := synCode (pgsSyntax f), nflds := (oneofFieldDs h o).length,
+    firstInRealOneOf := match oneofFieldDs h o with
+      | fd :: _ => field_InRealOneOf (fieldEnv f fd m)
+      | [] => false }
+
 /-- **`OneOf.IsSynthetic`** -/
 theorem tie_IsSynthetic (f : FileD) (h : MsgHead) (o : Nat) (m : Bool) :
-    pgsSynthetic f h o = oneof_IsSynthetic
-      { syn := synCode (pgsSyntax f), nflds := (oneofFieldDs h o).length,
-        firstInRealOneOf := match oneofFieldDs h o with
-          | fd :: _ => field_InRealOneOf (fieldEnv f fd m)
-          | [] => false } := by
-  unfold pgsSynthetic oneof_IsSynthetic Generated.syntaxProto3
+    pgsSynthetic f h o = oneof_IsSynthetic (oneofEnv f h o m) := by
+  unfold pgsSynthetic oneof_IsSynthetic oneofEnv Generated.syntaxProto3
   simp only [synCode_p3]
   cases hl : oneofFieldDs h o with
   | nil => simp
